@@ -12,11 +12,20 @@ Oracles, all computed from the generating VALUE (never from the implementation):
      certificate) on the implementation's documents, and `wrap (json_tokens v)` against the implementation's real
      token stream — the hypothesis of the token-level theorems C13_tokens_* is thereby checked on every case;
   3. model correspondence: the whole model pipeline `run_load` (mx load) on the same texts.
+The Coq theorems (Properties/C13.v) are about the MODEL: C13_text_full_proved says that run_load of EVERY serialisation of a
+value (json_doc_text: any space/TAB/LF/CR around the tokens, raw / two-character / \\uXXXX escapes, nesting < 256) is the
+value; C13_scanner that the scanner model yields wrap (json_tokens v).  Items 2 and 3 tie that to the implementation on every
+case: the real token stream is the one the theorem derives for the model, and the model pipeline gives the real result.
 
-Streams (routed by predicates on the TEXT, see known_findings_c13.jsonl):
-  main        : texts without the patterns below — every failure is a VIOLATION;
-  colon-tab   : a ':' outside strings, immediately followed by TAB(s) only and then [-0-9A-Za-z] — the KNOWN FINDING:
-                rejected with "':' must be followed by a valid YAML whitespace"; anything else there is a violation;
+Streams (routed by predicates on the TEXT):
+  main        : every failure is a VIOLATION (texts with a ':' followed by TABs only are ordinary cases here);
+  colon-tab   : REGRESSION stream of the fixed finding colon-tab-scalar (/repo b87c12b, known_findings_c13.jsonl): a ':'
+                outside strings, immediately followed by TAB(s) only and then [-0-9A-Za-z] (handwritten + forced at random
+                member separators).  Same oracles as the main stream: every failure is a VIOLATION with the input;
+  theorem-text: texts drawn directly along the constructors of Spec/Json.v json_text (the sub-language of C13_text_full_proved /
+                C13_scanner: every whitespace slot filled from {space, TAB, LF, CR}*, every character of a string raw, as a
+                two-character escape or as \\uXXXX where JSON allows it) and the texts of the EXTRACTED serialiser json_compact
+                (the function of C13_text_compact).  Same oracles as the main stream (real tokens = extracted json_tokens v);
   surrogates  : \\uD8xx\\uDCxx pair escapes (valid JSON, but the statement of C13 excludes \\u escapes that are
                 surrogate halves): observed and counted, never a violation;
   depth-256   : one level beyond the scanner's u8 flow level: must be refused cleanly (observation).
@@ -35,8 +44,8 @@ from . import core, gen
 from .core import Result, enc, ev_kind, prepare, run_hx, run_mx, split_line
 
 PID = "C13"
+MAIN_LIKE = ("main", "colon-tab", "theorem-text")
 KNOWN_FILE = os.path.join(core.VERIF, "known_findings_c13.jsonl")
-TAB_MSG = "':' must be followed by a valid YAML whitespace"
 
 # ------------------------------------------------------------------------------------------------
 # values:  ('null',) ('bool', b) ('num', text) ('str', s) ('arr', [v..]) ('obj', [(k, v)..])
@@ -278,10 +287,10 @@ def rand_ws(rng, density):
     return "".join(rng.choice(WS_ATOMS) for _ in range(rng.choice([1, 1, 1, 2, 3])))
 
 
-def ser_random(v, rng, density=0.5, tab_mode="avoid", esc=0.15, pairs=False, ws_alphabet=None):
+def ser_random(v, rng, density=0.5, tab_mode="free", esc=0.15, pairs=False, ws_alphabet=None):
     """own serialiser: random insignificant whitespace before the first, between any two and after the last token.
-    tab_mode 'avoid': never emit the known-finding pattern (':' TAB+ then a number/literal);
-             'force': emit it at one or more member separators (if the value has a member with such a value)."""
+    tab_mode 'free': whatever the whitespace generator gives (the pattern ':' TAB+ number/literal occurs by chance);
+             'force': emit that pattern at one or more member separators (if the value has a member with such a value)."""
     toks = tokens_of(v, rng, esc, pairs)
     parts = []
     cands = [i for i, (k, t) in enumerate(toks) if k == ":" and toks[i + 1][0] == "v" and toks[i + 1][1][0] in TABBY]
@@ -299,8 +308,6 @@ def ser_random(v, rng, density=0.5, tab_mode="avoid", esc=0.15, pairs=False, ws_
         w = ws()
         if k == ":" and i in forced:
             w = "\t" * rng.choice([1, 1, 1, 2, 3])
-        elif k == ":" and i in cands and w and set(w) == {"\t"}:
-            w = rng.choice([" ", "\t ", "\t\n", " \t", ""])
         parts.append(w)
     return "".join(parts)
 
@@ -383,7 +390,7 @@ def json_value_of(text):
 
 
 # ------------------------------------------------------------------------------------------------
-# text predicates (the classes of known_findings_c13.jsonl)
+# text predicates (stream routing)
 # ------------------------------------------------------------------------------------------------
 def has_colon_tab(text):
     """a ':' outside strings immediately followed by one or more TABs and then a character in [-0-9A-Za-z]"""
@@ -533,7 +540,7 @@ def build_cases(tier, rng):
             return
         seen.add(text)
         if stream is None:
-            stream = "colon-tab" if has_colon_tab(text) else "surrogates" if has_surrogate_escape(text) else "main"
+            stream = "surrogates" if has_surrogate_escape(text) else "main"
         cases.append(dict(text=text, value=value, stream=stream, style=style))
 
     def all_styles(v, n_random):
@@ -598,15 +605,37 @@ def build_cases(tier, rng):
     for t in ['{"a":1,"a":2}', '{"a":1,"b":2,"a":3}', '{"a":1,"b":2,"c":4,"b":3}', '{"a":{"x":1},"a":{"y":2}}', '{"":1,"":2,"":3}',
               '{"a":1,"b":{"k":1,"k":2},"a":[{"z":0,"z":1}]}']:
         add(t, json_value_of(t), "duplicates")
-    # 7. the known-finding stream: ':' TAB+ scalar
+    # 7. regression stream of the fixed finding colon-tab-scalar: ':' TAB+ number/literal (must load like any other text)
     for t in ['{"a":\t1}', '{"a":\t\t1}', '{"a":\ttrue}', '{"a":\tfalse}', '{"a":\tnull}', '{"a":\t-1}', '{"a":\t0.5}', '[{"a":\t1}]',
               '{"a":{"b":\t1e5}}', '{"a":\t1,"b":2}', '{"a": 1,"b":\t2}', '{\n"a":\t1\n}', '{"a":\t1\t}']:
         add(t, json_value_of(t), "colon-tab-hand", "colon-tab")
     for _ in range(150 if quick else 8000):
         v = gen_value(rng, rng.choice([1, 2, 3, 4]), [rng.choice([6, 15, 40])])
         t = ser_random(v, rng, density=rng.choice([0.2, 0.6]), tab_mode="force")
-        if has_colon_tab(t):
+        if has_colon_tab(t) and not has_surrogate_escape(t):
             add(t, v, "colon-tab-random", "colon-tab")
+    # 7b. long member names: /repo 57aa316 limits the implicit key of a flow-SEQUENCE single pair to 1024 characters; JSON arrays
+    #     contain no `key: value` entries and the names of {...} members stay unlimited, at any nesting inside arrays/objects
+    for n in ([1021, 1022, 1023, 1024, 1025, 1026, 2000] if quick else [1000, 1021, 1022, 1023, 1024, 1025, 1026, 1027, 1500, 2000, 4000]):
+        k = "k" * n
+        for v in (("obj", [(k, ("num", "1"))]),
+                  ("arr", [("obj", [(k, ("num", "1"))])]),
+                  ("arr", [("num", "0"), ("arr", [("obj", [(k, ("arr", [("obj", [(k, ("str", k))])]))]), ("str", k)])]),
+                  ("obj", [("a", ("arr", [("arr", [("obj", [(k, ("null",)), ("b", ("obj", [(k, ("bool", True))]))])])]))])):
+            add("".join(t for _, t in tokens_of(v, rng, esc=0.0)), v, "long-name-compact")
+            add(ser_random(v, rng, density=0.6), v, "long-name-random-ws")
+            add(ser_pretty(v, rng, 2), v, "long-name-pretty")
+    # 7c. the sub-language of the text-level theorems, drawn along the constructors of json_text: whitespace slots over {SP,TAB,LF,CR}*
+    #     (empty collections included: jt_arr0 / jt_obj0), per-character choice raw / short escape / \uXXXX
+    for t in ['[ ]', '[\t]', '[\n]', '[\r]', '[\r\n]', '{ }', '{\n\t}', ' [ ] ', '\r[\r]\r', '{"a"\r:\r1\r}', '{"a" :1}', '{"a"\n:1}', '{"a"\t:[ ]}',
+              '[1\r,\r2\r]', '[-1\n]', '[\n-1]', '\n-1', '-1\n', '"a"\r\n', '[ "a" , "b" ]', '{"a":"b"\n,\n"c":"d"}', '[null\t]', '[true\r\n,false]',
+              '"\\u0041\\u00e9\\u20AC\\uFFFF"', '"a b  c "', '" "', '"\\u0020"', '"\\t\\n \\r"', '{"a b":" "}', '["\\/","/"]']:
+        add(t, json_value_of(t), "theorem-hand", "theorem-text")
+    for _ in range(400 if quick else 15000):
+        v = gen_value(rng, rng.choice([1, 2, 3, 4, 6]), [rng.choice([6, 15, 40])])
+        t = ser_random(v, rng, density=rng.choice([0.3, 0.7, 1.0]), esc=rng.choice([0.0, 0.2, 0.6, 1.0]), ws_alphabet=" \t\n\r")
+        if not has_surrogate_escape(t):
+            add(t, v, "theorem-walk", "theorem-text")
     # 8. surrogate-pair escapes (outside the statement's precondition)
     for t in ['"\\ud83d\\ude00"', '["\\uD83D\\uDE00"]', '{"\\ud800\\udc00":"\\udbff\\udfff"}', '"a\\ud83d\\ude00b"']:
         add(t, json_value_of(t), "surrogate-hand", "surrogates")
@@ -652,10 +681,38 @@ def check_C13(tier, seed):
     res = Result(PID, tier, seed)
     proof = prepare(PID, res, model_tags=("", "C13"))
     rng = gen.rng_for(seed, PID)
-    known = load_known()
-    if not any(k.get("class") == "colon-tab-scalar" for k in known):
-        res.add_tie_break("known_findings_c13.jsonl does not list the class colon-tab-scalar")
+    known = load_known()      # no class of C13 is known at present; a listed class would only be reported, never routed
     cases = build_cases(tier, rng)
+    # the texts of the EXTRACTED serialiser json_compact (Spec/Json.v; the function of C13_text_compact) for the generated values
+    coq_compact = dict(values=0, texts_added=0, hypotheses_false=0)
+    if res.model_ok:
+        vals, seenv, seent = [], set(), set(c["text"] for c in cases)
+        for c in cases:
+            if c["value"] is not None and c["stream"] in ("main", "theorem-text") and c["style"] in (
+                    "handwritten", "compact", "hostile-compact", "deep-compact", "long-name-compact", "theorem-walk", "theorem-hand"):
+                k = prefix_form(c["value"])
+                if k not in seenv:
+                    seenv.add(k)
+                    vals.append(c["value"])
+        outs = run_mx(["compact"], [prefix_form(v) for v in vals], tag="C13")
+        coq_compact["values"] = len(vals)
+        for v, o in zip(vals, outs):
+            ok, _, cps = o.partition(" ")
+            if ok != "ok=1":
+                coq_compact["hypotheses_false"] += 1       # json_wf && json_chars_ok is false: outside C13_text_compact
+                if ok != "ok=0":
+                    res.add_tie_break("extracted json_compact failed", value=prefix_form(v)[:200], out=o[:200])
+                continue
+            try:
+                text = "".join(chr(int(x)) for x in cps.split())
+            except ValueError:
+                res.add_tie_break("extracted json_compact: unreadable output", out=o[:200])
+                continue
+            if text not in seent:
+                seent.add(text)
+                cases.append(dict(text=text, value=v, stream="theorem-text", style="coq-json_compact"))
+                coq_compact["texts_added"] += 1
+    res.coverage["extracted_json_compact"] = coq_compact
     # the generating value must be what a JSON parser reads from the text (validates generator + serialiser)
     for c in cases:
         try:
@@ -667,8 +724,10 @@ def check_C13(tier, seed):
             c["value"] = jv
         elif jv is not None and jv != c["value"]:
             res.add_tie_break("generator self-check: json.loads(text) is not the generating value", text=c["text"][:300])
-        if (c["stream"] == "main") and (has_colon_tab(c["text"]) or has_surrogate_escape(c["text"])):
+        if c["stream"] in MAIN_LIKE and has_surrogate_escape(c["text"]):
             res.add_tie_break("generator self-check: main stream contains an excluded pattern", text=c["text"][:300])
+        if c["stream"] == "colon-tab" and not has_colon_tab(c["text"]):
+            res.add_tie_break("generator self-check: a text of the colon-tab regression stream is not in the class", text=c["text"][:300])
     cases = [c for c in cases if c["value"] is not None]
     streams, styles, depths = {}, {}, {}
     for c in cases:
@@ -691,14 +750,13 @@ def check_C13(tier, seed):
         spec_toks = run_mx(["tokens"], pf, tag="C13")
         spec_exp = run_mx(["expect"], pf, tag="C13")
         verd = run_mx(["oracle"], [p + " @@ " + r for p, r in zip(pf, impl)], tag="C13")
-        # the class predicate used for routing is the one of the Coq statement (Spec/Json.v colon_tab)
+        # the class predicate of the regression stream is the one of Spec/Json.v (colon_tab)
         coltab = run_mx(["coltab"], lines, tag="C13")
         for i, c in enumerate(cases):
             if coltab[i] != ("1" if has_colon_tab(c["text"]) else "0"):
                 res.add_tie_break("class predicate: Python has_colon_tab != extracted colon_tab Tout", case=c["text"][:300], coq=coltab[i])
         verdicts = {}
-        tab_seen = tab_rejected = 0
-        tab_other = []
+        tab_seen = tab_ok = tab_main = 0
         sur = dict(rejected=0, loaded_as_json=0, loaded_otherwise=0)
         deep256 = []
         dup_stats = dict(cases=0, model_position=0, dict_position=0)
@@ -730,25 +788,18 @@ def check_C13(tier, seed):
                 if core_abnormal(got):
                     res.add_violation("abnormal termination on a surrogate-pair escape", case, impl=got[:200])
                 continue
+            reg = ""
             if stream == "colon-tab":
                 tab_seen += 1
-                if got.startswith("ERR") and TAB_MSG in got:
-                    tab_rejected += 1
-                    # the model must reproduce the finding
-                    if model[i] != "ERR":
-                        res.add_tie_break("correspondence: the model pipeline does not reject a colon-tab text", case=text[:300], model=model[i][:200])
-                    continue
-                if good:
-                    tab_other.append(text)
-                    continue
-                res.add_violation("colon-tab text fails in another way than the known finding", case, impl=got[:400], expected=exp[:400])
-                continue
-            # ---- main stream: the property ----
+                reg = "regression of the fixed finding colon-tab-scalar (b87c12b): "
+            elif has_colon_tab(text):
+                tab_main += 1
+            # ---- main stream and regression stream: the property ----
             if core_abnormal(got) or core_abnormal(evs[i]):
-                res.add_violation("abnormal termination while loading a JSON text", case, impl=got[:300], events=evs[i][-200:])
+                res.add_violation(reg + "abnormal termination while loading a JSON text", case, impl=got[:300], events=evs[i][-200:])
                 continue
             if not got.startswith("OK"):
-                res.add_violation("a JSON text is rejected", case, impl=got[:300])
+                res.add_violation(reg + "a JSON text is rejected", case, impl=got[:300])
                 continue
             isdup = has_dup(v)
             if isdup:
@@ -759,7 +810,7 @@ def check_C13(tier, seed):
                     res.add_tie_break("duplicate member names: last value wins, but the member keeps the position of its FIRST "
                                       "occurrence (Python dict order), not of the last (model / Spec obj_norm)", case=text[:300], impl=got[:300])
                 else:
-                    res.add_violation("a JSON text does not load with its JSON meaning", case, impl=got[:600], expected=exp[:600])
+                    res.add_violation(reg + "a JSON text does not load with its JSON meaning", case, impl=got[:600], expected=exp[:600])
                 continue
             if isdup:
                 dup_stats["model_position"] += 1
@@ -767,11 +818,11 @@ def check_C13(tier, seed):
             e, fin = split_line(evs[i])
             kinds = [ev_kind(x) for x in e]
             if fin != "OK" or sum(1 for k in kinds if k.startswith("DS")) != 1 or kinds.count("DE") != 1 or kinds[:2] != ["SS", "DS0"]:
-                res.add_violation("a JSON text is not delivered as exactly one implicit document", case, events=evs[i][-300:])
+                res.add_violation(reg + "a JSON text is not delivered as exactly one implicit document", case, events=evs[i][-300:])
                 continue
             # the extracted Coq oracle on the implementation's documents
             if verd[i] != "1":
-                res.add_violation("the extracted oracle c13_impl_ok (Spec/Json.v) rejects the implementation's result", case,
+                res.add_violation(reg + "the extracted oracle c13_impl_ok (Spec/Json.v) rejects the implementation's result", case,
                                   impl=got[:400], oracle=verd[i], spec=spec_exp[i][:400])
                 continue
             if not spec_exp[i].startswith("wf=1 "):
@@ -785,25 +836,18 @@ def check_C13(tier, seed):
             if model_floats_to_bits(model[i]) != got:
                 res.add_tie_break("correspondence: model pipeline (run_load) != implementation", case=text[:300],
                                   model=model[i][:300], impl=got[:300])
+            if stream == "colon-tab":
+                tab_ok += 1
             if v[0] in ("arr", "obj") and len(v[1]) > 0:
                 res.nontrivial.add(text)
-        # ---- the known finding ----
-        if tab_seen:
-            if tab_rejected:
-                k = [x for x in known if x.get("class") == "colon-tab-scalar"]
-                res.known.append("class=colon-tab-scalar rejected=%d/%d witness=%s %s" % (
-                    tab_rejected, tab_seen, json.dumps(k[0]["witness"] if k else '{"a":\t1}'),
-                    "valid JSON with a ':' followed only by TAB(s) and then a number/literal is rejected: " + TAB_MSG))
-            if tab_other:
-                res.notes.append("%d colon-tab texts loaded correctly (known finding not reproduced there): e.g. %r" % (len(tab_other), tab_other[0][:80]))
         res.coverage["verdicts"] = verdicts
-        res.coverage["known_finding_colon_tab"] = dict(generated=tab_seen, rejected_with_tab_message=tab_rejected, loaded_correctly=len(tab_other))
+        res.coverage["regression_colon_tab_fixed_b87c12b"] = dict(generated=tab_seen, passed_all_oracles=tab_ok, also_in_main_stream=tab_main)
         res.coverage["surrogate_pair_escapes_outside_precondition"] = sur
         res.coverage["depth_256"] = deep256
         res.coverage["duplicate_member_names"] = dup_stats
-        res.coverage["traces_validated_against_impl"] = sum(1 for c in cases if c["stream"] == "main")
+        res.coverage["traces_validated_against_impl"] = sum(1 for c in cases if c["stream"] in MAIN_LIKE)
         res.coverage["tokens_compared_with_json_tokens"] = ntoks
-        idx = [i for i, c in enumerate(cases) if c["style"] in ("random-ws", "pretty", "colon-tab-random", "number", "hostile-escaped")]
+        idx = [i for i, c in enumerate(cases) if c["style"] in ("random-ws", "pretty", "colon-tab-random", "number", "hostile-escaped", "theorem-walk", "coq-json_compact")]
         for j in (3, len(idx) // 3, len(idx) // 2, (2 * len(idx)) // 3, len(idx) - 5):
             if 0 <= j < len(idx):
                 i = idx[j]
@@ -811,13 +855,16 @@ def check_C13(tier, seed):
     res.assumptions += [
         "Python's json module (json.loads with literal-preserving number hooks) as the reference JSON reader; Python float() as "
         "correctly rounded decimal->binary64 conversion (cross-checked by the extracted nearest_double certificate)",
-        "text -> tokens (scanner) half of C13 is not proved; it is checked here per case (hx tokens = extracted wrap (json_tokens v))",
+        "the text-level theorems (C13_text_full_proved, C13_scanner, C13_text_compact) are statements about the executable MODEL of the scanner, "
+        "parser, loader and resolver; model = implementation is checked per case (hx tokens = extracted wrap (json_tokens v), mx load = hx load), "
+        "not proved",
         "\\u escapes forming surrogate pairs are outside the stated precondition (observed: rejected)",
     ]
     rule = ("random JSON values (depth<=8 quick / <=40 thorough, plus nesting chains up to 255; hostile strings from a %d-entry "
             "YAML-lookalike/escape/Unicode pool as keys and values; boundary and random numbers in every RFC 8259 spelling) x "
             "serialisations (compact, json.dumps layouts, own pretty printer with LF/CR/CRLF, random space/tab/LF/CR/CRLF around every "
-            "token, single-kind whitespace); separate streams for the known ':'+TAB class, surrogate-pair escapes, depth 256, duplicate "
+            "token, single-kind whitespace); the sub-language of the text theorems drawn along the constructors of json_text and through the extracted "
+            "json_compact; separate streams for the ':'+TAB regression class (fixed finding), surrogate-pair escapes, depth 256, duplicate "
             "names; non-trivial = distinct main-stream texts whose value is a non-empty array or object and that passed all oracles"
             % len(YAMLISH))
     return res.finish(proof, rule)
